@@ -293,6 +293,7 @@ pub fn run_pinned(property: &str, rep: &mut Reporter) {
         "C11" => vec![("KF-C11-a", c11_a)],
         "C12" => vec![("KF-C12-a", c12_a)],
         "C13" => vec![("KF-C13-a", c13_a), ("KF-C13-b", c13_b)],
+        "C16" => vec![("KF-C16-a", c16_a)],
         "C19" => vec![("KF-C19-a", c19_a), ("KF-C19-d", c19_d)],
         _ => vec![],
     };
@@ -320,5 +321,24 @@ pub fn all() -> Vec<(&'static str, fn() -> (bool, String))> {
         ("KF-C13-b", c13_b),
         ("KF-C19-a", c19_a),
         ("KF-C19-d", c19_d),
+        ("KF-C16-a", c16_a),
     ]
+}
+
+/// KF-C16-a: a deposit with a slippage tolerance re-orders the pool's assets against its decimals
+pub fn c16_a() -> (bool, String) {
+    let mut w = world(coin(0, "uom"));
+    let u = w.users[0].clone();
+    let op = create_pool_op(&w, &u, &["uusdc", "udai"], PoolType::StableSwap { amp: 100 }, pool_fee(0, 4, 0, &[]), Some("x"));
+    must(w.apply(&op), "pool");
+    must(w.apply(&provide_op(&u, "o.x", vec![coin(2_000_000_000_000, "uusdc"), coin(2_000_000 * 10u128.pow(18), "udai")], None, None, None, None, None)), "deposit");
+    let before = observe(&w).pools["o.x"].clone();
+    let q0: Result<pm::SimulationResponse, String> = w.query(&w.pm, &pm::QueryMsg::Simulation { offer_asset: coin(1_000_000_000, "uusdc"), ask_asset_denom: "udai".into(), pool_identifier: "o.x".into() });
+    let r = w.apply(&provide_op(&u, "o.x", vec![coin(1, "uusdc"), coin(10u128.pow(12), "udai")], Some(Decimal::one()), None, None, None, None));
+    let after = observe(&w).pools["o.x"].clone();
+    let q1: Result<pm::SimulationResponse, String> = w.query(&w.pm, &pm::QueryMsg::Simulation { offer_asset: coin(1_000_000_000, "uusdc"), ask_asset_denom: "udai".into(), pool_identifier: "o.x".into() });
+    (
+        before.info.assets.iter().map(|c| c.denom.clone()).collect::<Vec<_>>() != after.info.assets.iter().map(|c| c.denom.clone()).collect::<Vec<_>>(),
+        format!("stableswap pool created as [uusdc(6), udai(18)]: after a dust deposit with slippage tolerance 1.0 ({}) Pools lists the assets as {:?} against decimals {:?}; Simulation of 1000 uusdc answered {:?} before and {:?} after", r.short(), after.info.assets.iter().map(|c| c.denom.clone()).collect::<Vec<_>>(), after.info.asset_decimals, q0.map(|q| q.return_amount.to_string()), q1.map(|q| q.return_amount.to_string())),
+    )
 }
